@@ -422,18 +422,21 @@ class Program(object):
             if ent:
                 ps = ent.get("p", [])
                 if len(ps) == len(fn.params):
+                    known = set(ps) | set(r_[0] for r_ in ent.get("l", []))
                     for prm, nm in zip(fn.params, ps):
-                        if prm.get("n") and nm and prm["n"] != nm and prm.get("did") is not None:
+                        if prm.get("n") and nm and prm["n"] != nm and prm.get("did") is not None and prm["n"] not in known:
                             m[prm["did"]] = nm
                 cur = local_decls(fn)
                 ref = ent.get("l", [])
+                ref_names = set(r_[0] for r_ in ref) | set(ent.get("p", []))
                 sm = difflib.SequenceMatcher(a=[c[2] for c in cur], b=[r_[1] for r_ in ref], autojunk=False)
                 for tag, i1, i2, j1, j2 in sm.get_opcodes():
                     if tag == "equal":
                         for k_ in range(i2 - i1):
                             did, nm, _t = cur[i1 + k_]
                             want = ref[j1 + k_][0]
-                            if nm != want:
+                            # a name the reference knows for another local of this function is a re-ordering, not a renaming: keep it
+                            if nm != want and nm not in ref_names:
                                 m[did] = want
                 # never create a clash: a target name still used by a declaration that is not itself renamed
                 # (only declarations the reference does not have can clash: shadowing that the reference itself has is reproduced as it is)
